@@ -5,6 +5,7 @@ CONSTANTS
   QuietClears = TRUE
   Flags <- FlagsQ
   Verbs <- VerbsQ
+  Indents <- IndentsQ
   QuietOps = TRUE
   W = 4
   Lens <- LensSmall
